@@ -102,11 +102,30 @@ func resolveAT(r *core.Run, rule string) *atWorld {
 			if core.RecvNamed(f.Obj) != a.atConn || f.Obj == begin {
 				continue
 			}
-			for _, cs := range w.Calls(f) {
-				if cs.Static == begin && cs.InLit == nil {
-					a.wrappers = append(a.wrappers, f)
-					break
+			// the implicit-transaction wrapper: handed the statement as a function value, it begins a transaction
+			// around it — itself, or through a helper of the connection that is not handed the statement
+			hasFn := false
+			for _, p := range paramObjs(f) {
+				if _, ok := p.Type().Underlying().(*types.Signature); ok {
+					hasFn = true
 				}
+			}
+			var begins func(g *core.FuncInfo, d int) bool
+			begins = func(g *core.FuncInfo, d int) bool {
+				for _, cs := range w.Calls(g) {
+					if cs.Static == begin && cs.InLit == nil {
+						return true
+					}
+					if h := w.Info(cs.Static); h != nil && d > 0 && h != g && core.RecvNamed(h.Obj) == a.atConn && h.Obj != begin && cs.InLit == nil {
+						if begins(h, d-1) {
+							return true
+						}
+					}
+				}
+				return false
+			}
+			if hasFn && begins(f, 2) {
+				a.wrappers = append(a.wrappers, f)
 			}
 		}
 	}
@@ -223,7 +242,9 @@ func checkC02(r *core.Run) {
 	}
 	for _, fn := range a.steps {
 		r.Fn(fn)
-		sp := &flow.Spec{W: w, Depth: 2, Classify: classify, NoDescend: noDesc, CondTags: atTargetNonNil}
+		// (clean-up written as one deferred closure driven by flags and by the error being returned is followed per
+		// exit: DeferAtExit)
+		sp := &flow.Spec{W: w, Depth: 2, Classify: classify, NoDescend: noDesc, CondTags: atTargetNonNil, DeferAtExit: true}
 		res := sp.Analyze(fn)
 		nFlush, nCommit := 0, 0
 		for _, cp := range res.Calls {
@@ -329,7 +350,7 @@ func c02WrappedCommit(r *core.Run, w *core.World, sp *flow.Spec, fn *core.FuncIn
 	if len(wrap) == 0 {
 		return 0
 	}
-	sp2 := &flow.Spec{W: w, Depth: 2, NoDescend: sp.NoDescend, CondTags: sp.CondTags, Classify: func(pkg *packages.Package, call *ast.CallExpr, callee *types.Func) []flow.Tag {
+	sp2 := &flow.Spec{W: w, Depth: 2, NoDescend: sp.NoDescend, CondTags: sp.CondTags, DeferAtExit: true, Classify: func(pkg *packages.Package, call *ast.CallExpr, callee *types.Func) []flow.Tag {
 		if wrap[callee] {
 			return []flow.Tag{"commitstep"}
 		}
@@ -617,6 +638,7 @@ func c02Wrapped(r *core.Run, a *atWorld) {
 	}
 	sqlEx := w.Interface("pkg/datasource/sql/exec", "SQLExecutor")
 	n := 0
+	siteIn := map[*core.FuncInfo]bool{}
 	for _, f := range w.SortedFuncs() {
 		if core.RecvNamed(f.Obj) != a.atConn || w.IsTestFile(f.Decl.Pos()) || f.Decl.Body == nil {
 			continue
@@ -643,6 +665,7 @@ func c02Wrapped(r *core.Run, a *atWorld) {
 				}
 			}
 			n++
+			siteIn[f] = true
 			r.Sites++
 			r.Fn(f)
 			inside := false
@@ -664,7 +687,20 @@ func c02Wrapped(r *core.Run, a *atWorld) {
 			return true
 		})
 	}
-	if n < 2 {
+	// both statement entries of the connection (Exec and Query) reach such a site — their own, or one they share
+	entries := 0
+	for _, f := range w.SortedFuncs() {
+		if core.RecvNamed(f.Obj) != a.atConn || w.IsTestFile(f.Decl.Pos()) || !inSet(f.Obj.Name(), "ExecContext", "QueryContext") {
+			continue
+		}
+		for g := range w.Reach([]*core.FuncInfo{f}, func(h *core.FuncInfo) bool { return core.RecvNamed(h.Obj) != a.atConn }) {
+			if siteIn[g] {
+				entries++
+				break
+			}
+		}
+	}
+	if n == 0 || entries < 2 {
 		r.Bad("C02.order", "INSTANCE-FLOOR statement entries of the AT connection calling an executor", "", "fewer than the two entries (Exec, Query) confirmed by hand")
 	}
 }
